@@ -19,6 +19,7 @@ func runC20(c *Check) {
 	c.guardedFields()
 	c.scratchFields()
 	c.onceFields()
+	c.oneOncePerField()
 	c.globalWriters()
 	c.tempFileCreation()
 	c.binrepImmutable()
